@@ -80,10 +80,15 @@ Definition list_after (stream : list shard) (after : N) : list shard :=
 (* one assignment call: (runner index, shard id, cursor), grouped by runner in runner order *)
 Definition assignment := list (N * N * N).
 
-Definition assign_out (n : N) (cs : list (N * N)) (shards : list shard) : assignment :=
+(* [f] chooses the runner of a shard; WHICH runner is not part of the property, only that it is one index < n *)
+Definition assign_out_with (f : shard -> N) (n : N) (cs : list (N * N)) (shards : list shard) : assignment :=
   flat_map (fun r => map (fun s => (r, sid s, cursor_of cs (sid s)))
-                         (filter (fun s => runner_index (hlo s) (hhi s) n =? r) shards))
+                         (filter (fun s => f s =? r) shards))
            (iota_from 0 (N.to_nat n)).
+
+(* the policy of the current code (uniformlyAssignShard); not compared with the implementation *)
+Definition assign_out (n : N) (cs : list (N * N)) (shards : list shard) : assignment :=
+  assign_out_with (fun s => runner_index (hlo s) (hhi s) n) n cs shards.
 
 (* assignShards: hook call (none when the list is empty) then TrackAssigned *)
 Definition assign_shards_gen (mono : bool) (n : N) (k : ksplitter) (shards : list shard) : ksplitter * option assignment :=
@@ -117,6 +122,12 @@ Definition k_finish_gen (mono : bool) (n : N) (ids : list N) (k : ksplitter) : k
 
 (* Checkpoint() *)
 Definition k_checkpoint (k : ksplitter) : list shard * N := (assigned_splits (trk k), last (trk k)).
+
+(* the shards handed out by a step (what assignShards is called with) and the cursors it attaches *)
+Definition k_start_pending (stream : list shard) (ck_assigned : list shard) (ck_last : N) (split_states : list (N * N)) : list shard :=
+  available (trk (discover stream (mkK (load_splits ck_assigned ck_last new_tracker) (load_cursors split_states)))).
+Definition k_tick_pending (stream : list shard) (k : ksplitter) : list shard := available (trk (discover stream k)).
+Definition k_finish_pending (ids : list N) (k : ksplitter) : list shard := available (remove_splits ids (trk k)).
 
 Definition k_start := k_start_gen true true.
 Definition k_tick := k_tick_gen true.
